@@ -4,6 +4,7 @@ package main
 // A store to one field frames every other field for free.
 
 import (
+	"strings"
 	"fmt"
 	"go/types"
 )
@@ -81,7 +82,7 @@ func (c *Ctx) loadAt(st *State, base, ref, nm string, ft types.Type) Val {
 		nt, _ := t.Elem().(*types.Named)
 		if _, isSlice := t.Elem().Underlying().(*types.Slice); isSlice || isMapType(t.Elem()) {
 			// pointer to a container (list/map wrappers): cell identity
-			return PtrV{Ref: r, Named: nil, Cell: "cell:" + types.TypeString(t.Elem(), nil)}
+			return PtrV{Ref: r, Named: nil, Cell: "cell:" + types.TypeString(t.Elem(), nil), CellT: t.Elem()}
 		}
 		return PtrV{Ref: r, Named: nt}
 	case *types.Interface:
@@ -286,6 +287,9 @@ func (c *Ctx) loadStruct(st *State, p PtrV) StructV {
 
 // cells: pointers to containers (*[]T, *map[K]V) used by list/map wrappers, and &x.F
 func (c *Ctx) cellType(p PtrV) types.Type {
+	if p.CellT != nil && strings.HasPrefix(p.Cell, "cell:") {
+		return p.CellT
+	}
 	if p.Named != nil && len(p.Cell) > 4 && p.Cell[:4] == "fld:" {
 		// &x.F
 		for i := 0; i < p.Struct().NumFields(); i++ {
@@ -373,7 +377,15 @@ func (c *Ctx) idOfValue(st *State, v Val) string {
 			return x.Id
 		}
 		c.declBytesFuns()
+		memo := x.Arr + "|" + x.Region + "|" + x.Off + "|" + x.Len + "|" + st.heap[x.Region]
+		if id, ok := c.bidMemo[memo]; ok {
+			return id
+		}
 		id := c.freshRaw("bid", "Int")
+		if c.bidMemo == nil {
+			c.bidMemo = map[string]string{}
+		}
+		c.bidMemo[memo] = id
 		c.assume("(= (BytesLen " + id + ") " + x.Len + ")")
 		if x.Off == c.ilit(0) {
 			c.assume("(= (BytesArr " + id + ") " + c.sliceArr(st, x) + ")")
